@@ -112,7 +112,18 @@ def derive_variant(rng, spec, how):
                 if whole or rng.random() < 0.5:
                     e[1] = "%s*(%s) + %s" % (fmt_num(round(rng.uniform(0.5, 2.0), 3)), e[1], fmt_num(round(rng.uniform(-1, 1), 3)))
         for sec in s["sections"]:
-            if sec["name"] in mg.FUNCTION_SECTIONS:
+            if sec["name"].startswith("Table-Form:") and rng.random() < 0.6:
+                # same table-form name, other data
+                for e in sec["entries"]:
+                    if e[0] in ("y", "xy"):
+                        vals = e[1].split()
+                        step, start = (2, 1) if e[0] == "xy" else (1, 0)
+                        for i in range(start, len(vals) - step, step):
+                            vals[i] = fmt_num(round(float(vals[i]) * rng.uniform(0.6, 1.4) + 0.01, 4))
+                        e[1] = " ".join(vals)
+        keep_instances = pf is not None and rng.random() < 0.5
+        for sec in s["sections"]:
+            if sec["name"] in mg.FUNCTION_SECTIONS and not keep_instances:
                 for e in sec["entries"]:
                     if rng.random() < 0.5:
                         e[1] = _perturb_numbers(rng, e[1])
@@ -161,7 +172,7 @@ def functions_of(spec):
 def gen_scenario(seed, tier="quick"):
     rng = random.Random(seed)
     hs_run = rng.random() < 0.15
-    opts = {"nr_max": 12, "nrho_max": 6, "max_species": 4, "forms_prob": 0.75, "tables_prob": 0.15, "species_override_prob": 0.35}
+    opts = {"nr_max": 12, "nrho_max": 6, "max_species": 4, "forms_prob": 0.8, "tables_prob": 0.3, "species_override_prob": 0.35}
     if hs_run and rng.random() < 0.7:
         opts.update({"targets": mg.EAM_TARGETS + mg.FS_TARGETS + mg.ADP_TARGETS + ["setfl", "setfl_fs", "DL_POLY_EAM_fs"],
                      "underspecified_prob": 0.9, "max_species": 4, "min_species": 2})
@@ -172,7 +183,7 @@ def gen_scenario(seed, tier="quick"):
     nmodels = rng.choice([1, 2, 2, 3])
     tags = ["base"]
     while len(models) < nmodels:
-        how = rng.choice(["retarget", "same-names-other-formulas", "pair-from-eam", "independent", "identical"])
+        how = rng.choice(["retarget", "same-names-other-formulas", "same-names-other-formulas", "pair-from-eam", "independent", "identical"])
         if how == "independent":
             o2 = dict(opts)
             if rng.random() < 0.7:
